@@ -317,6 +317,35 @@ fn overdue_then(id: usize, name: &'static str, last: Vec<COp>) -> ConcCase {
     }
 }
 
+/// C10 / C14: a reservation on a fresh map while another thread's first insert sits between taking
+/// the initialisation lock (`size_ctl = -1`) and storing the first table; a third thread inserts
+/// meanwhile. Exactly one first table may be published (the reservation has to back off).
+pub fn reserve_during_first_insert() -> ConcCase {
+    let mut origin = 1600u32;
+    let mut fresh = || {
+        origin += 1;
+        origin
+    };
+    let ins: Vec<COp> = (2..=9u32).map(|k| COp::Ins(k, 1, fresh())).collect();
+    let script = vec![
+        ScriptStep { tid: 0, until: Until::Pending { kind: Kind::Store, what: "Table", rel: Rel::Any } },
+        ScriptStep { tid: 1, until: Until::Finished },
+        ScriptStep { tid: 2, until: Until::Finished },
+        ScriptStep { tid: 0, until: Until::Finished },
+    ];
+    ConcCase {
+        id: 8,
+        seed: 0xC10,
+        hash_class: "scenario:reserve-during-first-insert",
+        hashes: ident_hashes(200),
+        cap: 0,
+        prefill: vec![],
+        programs: vec![vec![COp::Ins(1, 1, fresh())], vec![COp::Reserve(20)], ins],
+        policy: Policy::Script(script),
+        pin: false,
+    }
+}
+
 pub fn all() -> Vec<(&'static str, ConcCase)> {
-    vec![("stale-helper", stale_helper()), ("clear-in-transfer-window", clear_in_transfer_window()), ("null-first-iter", null_first_iter()), ("tree-stale-linear-reader", tree_stale_linear_reader()), ("iter-sees-unlinked-tree-insert", iter_sees_unlinked_tree_insert()), ("reader-on-removed-tree-node", reader_on_removed_tree_node()), ("overdue-then-removing-compute", overdue_then_removing_compute()), ("overdue-then-remove", overdue_then_remove())]
+    vec![("stale-helper", stale_helper()), ("clear-in-transfer-window", clear_in_transfer_window()), ("null-first-iter", null_first_iter()), ("tree-stale-linear-reader", tree_stale_linear_reader()), ("iter-sees-unlinked-tree-insert", iter_sees_unlinked_tree_insert()), ("reader-on-removed-tree-node", reader_on_removed_tree_node()), ("overdue-then-removing-compute", overdue_then_removing_compute()), ("overdue-then-remove", overdue_then_remove()), ("reserve-during-first-insert", reserve_during_first_insert())]
 }
